@@ -114,6 +114,64 @@ func runC04(r *Report) {
 		fromTunnel := (strings.Contains(o, "GetMappingID") || strings.Contains(o, "WaitingState.MappingID")) && !strings.Contains(o, "TunnelOpenRequest")
 		r.Ob("R-C04-2", CallPos(c), fromTunnel, "the attach authoriser is given the mapping id recorded for the tunnel ("+o+"), not the one the requester wrote into the request", "handleTunnelOpen", "authoriser-mapping-of-tunnel")
 	}
+	// an admission helper (`admitToExistingTunnel(connPacket, conn, tunnelID, mappingID, route)`): it reports
+	// success only after the attach authoriser succeeded for the connection id and mapping id it was given
+	Instrs(hto, func(in ssa.Instruction) {
+		hc, ok := in.(*ssa.Call)
+		if !ok {
+			return
+		}
+		g := hc.Common().StaticCallee()
+		if g == nil || g.Pkg != hto.Pkg || len(g.Blocks) == 0 || g == hto {
+			return
+		}
+		acs := Calls(g, false, "SessionManager.authorizeTunnelAttach")
+		if len(acs) == 0 || g.Name() == "authorizeTunnelAttach" {
+			return
+		}
+		argOf := func(v ssa.Value) ssa.Value {
+			// the value in the dispatcher that the helper's parameter (or a field read of it) stands for
+			for _, rt := range Origins(v) {
+				if p, isP := rt.V.(*ssa.Parameter); isP {
+					for i, q := range g.Params {
+						if q == p && i < len(hc.Call.Args) {
+							return hc.Call.Args[i]
+						}
+					}
+				}
+			}
+			return nil
+		}
+		good := true
+		for _, ret := range Returns(g) {
+			if RetErrKind(ret) == "nonnil" {
+				continue
+			}
+			dom := false
+			for _, ac := range acs {
+				if ErrOK(ret.Block(), ac) {
+					dom = true
+				}
+			}
+			if !dom {
+				good = false
+			}
+		}
+		for _, ac := range acs {
+			a0, a1 := argOf(Arg(ac, 0)), argOf(Arg(ac, 1))
+			okConn := a0 != nil && (isThisConnID(a0) || a0 == ssa.Value(hto.Params[1]))
+			o := ""
+			if a1 != nil {
+				o = originSummary(a1)
+			}
+			fromTunnel := (strings.Contains(o, "GetMappingID") || strings.Contains(o, "WaitingState.MappingID")) && !strings.Contains(o, "TunnelOpenRequest")
+			r.Ob("R-C04-1", CallPos(ac), okConn, "the attach authoriser (in "+g.Name()+") is applied to this packet's connection id", "handleTunnelOpen", "authoriser-on-this-connection")
+			r.Ob("R-C04-2", CallPos(ac), fromTunnel, "the attach authoriser (in "+g.Name()+") is given the mapping id recorded for the tunnel ("+o+"), not the one the requester wrote into the request", "handleTunnelOpen", "authoriser-mapping-of-tunnel")
+		}
+		if good {
+			auths = append(auths, authz{hc, "attach"})
+		}
+	})
 	if len(auths) < 1 { // alarm below 40% of the 3 sites confirmed by hand
 		r.Fail("R-C04-1", hto.Pos(), fmt.Sprintf("only %d authoriser calls found in the dispatcher (3 confirmed by hand)", len(auths)), "handleTunnelOpen", "floor-authorisers")
 	}
@@ -196,6 +254,25 @@ func runC04(r *Report) {
 		}
 	}
 	for _, a := range auths {
+		// an admission helper that acknowledges its own refusals: every error return of the helper has
+		// passed the failure acknowledgement
+		if cc, isC := a.call.(*ssa.Call); isC {
+			if g := cc.Common().StaticCallee(); g != nil && g.Name() != "authorizeTunnelAttach" && len(Calls(g, false, "SessionManager.authorizeTunnelAttach")) > 0 {
+				acked := true
+				for _, ret := range Returns(g) {
+					if RetErrKind(ret) == "nil" {
+						continue
+					}
+					if ReachesWithout(g, ret, func(in ssa.Instruction) bool { return performsVia(in, isAck(false), nil) }) {
+						acked = false
+					}
+				}
+				if acked {
+					r.Pass("R-C04-3", CallPos(a.call), "the admission helper "+g.Name()+" sends the failure acknowledgement on every refusing return", "handleTunnelOpen", "refusal-acked:"+a.kind)
+					continue
+				}
+			}
+		}
 		// failure edge of the authoriser: every path to a return passes a failure ack and no attach dispatch
 		for _, b := range hto.Blocks {
 			if !ErrFailed(b, a.call) {
